@@ -151,6 +151,25 @@ def _phasor(ctx, shape):
         ctx.ob("R16.5", f"{q}.update:inverse{'[reduced]' if reduce else ''}{shape}", _eq_list(a, b), "inverse-time phasor detectors subtract exactly what forward ones add", e, o)
 
 
+def _phasor_family_inverse(ctx):
+    """every update override in the phasor family (closed surface, field projection): the inverse detector subtracts the
+    term the forward one adds (shared harness of C17)"""
+    from . import c17
+
+    ix = ctx.index
+    P = ix.cls("fdtdx.objects.detectors.phasor.PhasorDetector")
+    overrides = {}
+    for c in ix.subclasses(P):
+        m = c.lookup_method("update")
+        if m is not None and m.cls is not P:
+            overrides.setdefault(m.qualname, (m, c))
+    ctx.require_count("R16.5 phasor update overrides", len(overrides), 2)
+    for q, (m, c) in sorted(overrides.items()):
+        ctx.unit(m.where())
+        extra = {"axes": (0, 1, 2), "exclude_surfaces": (), "_projection_mode": "box", "orientation": "outward"}
+        c17._check_update(ctx, m.cls, m.cls.name, extra=extra, rule="R16.5")
+
+
 def _energy(ctx, shape):
     q = "fdtdx.objects.detectors.energy.EnergyDetector"
     E, H = arr("E", (3,) + shape), arr("H", (3,) + shape)
@@ -329,6 +348,7 @@ def run(ctx):
     err = run_jobs(ctx, "sa.checks.c16", "_job", jobs, [f"{k}{s}" for k, s in jobs])
     _axis_tables(ctx)
     _weights(ctx)
+    _phasor_family_inverse(ctx)
     if err is not None:
         raise AnalysisError(err)
     ctx.require_count("C16", len(ctx.obligations), 150)
